@@ -8,6 +8,7 @@ import (
 
 	"connectrpc.com/vanguard"
 	"google.golang.org/protobuf/proto"
+	"google.golang.org/protobuf/reflect/protoreflect"
 	"google.golang.org/protobuf/reflect/protoregistry"
 )
 
@@ -186,7 +187,7 @@ func init() {
 		ID:    "C15",
 		Level: "exploration",
 		Rule: "one Transcoder (the stream-shape service, in a third of the worlds also the REST-bound parameter service) and one set of pools; a drawn history of 0..20 earlier RPCs run to completion one after another (valid, failed validation, body cut mid-message, over the limit, corrupt compressed request, undecodable request, " +
-			"corrupt compressed response, protocol-breaking backend, backend panic, client gone mid-response, a failing codec or (de)compressor call) followed by a probe RPC; the same probe runs on a freshly built Transcoder. Pool policies are adversarial (most-recently-released first, " +
+			"corrupt compressed response, protocol-breaking backend, backend panic, client gone mid-response, a failing codec or (de)compressor call) followed by a probe RPC; the same probe runs on a freshly built Transcoder. Two directed history classes: side-effect-free calls that overflow a small GET URL limit before a larger call that fits; and calls of a service with a generous limit that leave buffers of many kilobytes in the pool before a call of a second service, with a small limit, whose backend answers with more than that limit. Pool policies are adversarial (most-recently-released first, " +
 			"random, fifo; released buffers keep poison as their stale content in most runs so that a missing reset hands recognisable garbage to the next user). oracle: canonical probe outcome and backend view are equal; no pool or compressor misuse. " +
 			"distinct = (history length, probe form>target/path, pool policy, schedule hash); non-trivial = the history is not empty",
 		Gen: func(c *Chooser, tier string) *Plan {
@@ -198,6 +199,11 @@ func init() {
 			}
 			if c.Prob(0.06) {
 				return genGetMemoPlan(c)
+			}
+			if c.Prob(0.08) {
+				if p := genWarmPoolPlan(c); p != nil {
+					return p
+				}
 			}
 			nh := Pick(c, 0, 1, 2, 3, c.Intn(maxHist+1))
 			cfg := ConfigPlan{Services: []ServicePlan{svc}}
@@ -277,6 +283,54 @@ func init() {
 		Components:  stdComponents,
 		Assumptions: []string{"state that could leak lives in the buffer pool (simulated free list behind the hook) and in pooled compressors/decompressors (real gzip/zlib objects behind misuse-detecting wrappers, recycled by the real sync.Pool)"},
 	})
+}
+
+// genWarmPoolPlan: what a pooled buffer grew to under one service's limit must not decide what another service accepts.
+// Two services on one Transcoder, one with a generous limit and one with a small limit L. History: calls of the generous
+// service that move messages of many kilobytes through a re-encoding path, so that large buffers go back to the pool.
+// Probe: a call of the small-limit service whose backend answers with something larger than L (an end-of-stream frame
+// with bulky trailing metadata on the re-framing path, or a response frame whose size in the backend's codec exceeds L
+// on the re-encoding path). Whatever the verdict on that is, it is the same on a fresh Transcoder.
+func genWarmPoolPlan(c *Chooser) *Plan {
+	L := Pick(c, 1024, 2048, 4096)
+	small := ServicePlan{Schema: "sim", MaxMsg: uint32(L), Protocols: []string{Pick(c, ProtoGRPCWeb, ProtoConnect, ProtoGRPC)}, Codecs: []string{Pick(c, "proto", "json")}, NoCompression: true}
+	big := ServicePlan{Schema: "sim2", MaxMsg: 1 << 20, Protocols: []string{Pick(c, ProtoGRPC, ProtoGRPCWeb, ProtoConnect)}, Codecs: []string{"proto"}, NoCompression: true}
+	cfg := ConfigPlan{Services: []ServicePlan{small, big}}
+	pvMsg := func(n int) []byte {
+		md := getSchema("sim2").method("BodyStar").Input()
+		m := newMessageFor(md)
+		fd := md.Fields().ByName("string_value")
+		if fd == nil {
+			return nil
+		}
+		m.ProtoReflect().Set(fd, protoreflect.ValueOfString(strings.Repeat("w", n)))
+		return canonBytes(m)
+	}
+	strMsg := func(n int) []byte {
+		b := appendVarint([]byte{0x72}, uint64(n)) // AllTypes.string_value
+		return append(b, strings.Repeat("s", n)...)
+	}
+	var rpcs []RPCPlan
+	for i, k := 0, c.Range(1, 3); i < k; i++ {
+		req, resp := pvMsg(c.Range(6000, 40000)), pvMsg(c.Range(6000, 40000))
+		if req == nil {
+			return nil
+		}
+		rpcs = append(rpcs, RPCPlan{Client: ClientPlan{Form: FormConnectUnary, HTTP: Pick(c, 1, 2), Service: "sim2", Method: "BodyStar", Codec: "json", Msgs: []MsgSpec{{Data: req}}},
+			Backend: BackendPlan{Resp: RespPlan{Msgs: []MsgSpec{{Data: resp}}, TrailerStyle: "prefix"}}})
+	}
+	probe := RPCPlan{Client: ClientPlan{Form: Pick(c, FormGRPC, FormGRPCWeb, FormConnectStream), HTTP: 2, Service: "sim", Method: "ServerStream", Codec: Pick(c, "proto", "json"), Msgs: []MsgSpec{smallMsg()}},
+		Backend: BackendPlan{Resp: RespPlan{Msgs: []MsgSpec{smallMsg()}, TrailerStyle: "prefix"}}}
+	if c.Bool() {
+		// the end of the stream is what is large
+		n := c.Range(L/2, 3*L)
+		probe.Backend.Resp.Trailers = [][2]string{{"X-Bulk", strings.Repeat("t", n)}}
+	} else {
+		probe.Backend.Resp.Msgs = []MsgSpec{{Data: strMsg(c.Range(L/2, 3*L))}}
+	}
+	rpcs = append(rpcs, probe)
+	return &Plan{Config: cfg, RPCs: rpcs, Sched: SchedPlan{Policy: "seq"}, Note: "warm-pool",
+		Pool: PoolPlan{Policy: Pick(c, "lifo", "lifo", "random", "fifo"), Seed: c.Uint64(), Poison: c.Bool()}, StepCap: 400000}
 }
 
 // genGetMemoPlan: whether a message still fits a GET URL is a function of that message alone. History: side-effect-free
